@@ -25,6 +25,7 @@ RULE = ("case = one word over rows (key incl. null, value null/non-null) x value
         "results are input elements, result dtype family (width, bool, unit, timezone), exact "
         "integer sums; non-trivial = >= 2 rows")
 ASSUMPTIONS = [
+    'RangeIndex keys (any start, positive and negative steps) against the same numbers as NumPy / pd.Index keys; Arrow nullable-integer values use whole numbers for every seed',
     'mixed-dtype frames: 2-3 value columns out of {int64, float64, float32, int32, int16, uint8, bool, datetime64[ns]} given together as list / dict / pandas frame / polars frame on NumPy, chunk-wise and every Arrow-chunked key layout; every result column compared (numbers and dtype) with the column reduced alone',
     "n <= 3 rows (quick) / 4-5 (thorough); G <= 2-3; <= 3 chunks",
     "nulls: NaN/NaT/None in NumPy and pandas-NumPy containers, Arrow nulls in Arrow-backed ones",
